@@ -163,8 +163,22 @@ func runMode(ctx context.Context, c *Case, m Mode, dir string) (res ModeResult) 
 	res.Before, res.After = before, after
 	in := &oracleIn{ctx: ctx, cur: &c.Cur, des: &c.Des, before: before, after: after, changed: changedTables(changes), applyErr: applyErr, mode: m}
 	res.Verdicts, res.Stats = in.check()
+	if m.Tx == "rawtx" && m.FK {
+		// The engine-side premise of the property does not hold here (a plain sql.Tx with
+		// enforcement on: the plan's pragma bracket is a no-op, PlanChanges says so).  What the
+		// oracle sees is counted, not reported: it is the necessity witness of
+		// C05_others_untouched_without_pragma_refuted on the real engine.
+		for _, v := range res.Verdicts {
+			res.Stats["premise-violated:"+v.Class]++
+		}
+		res.Verdicts = nil
+	}
 	if res.Stats["rowid-alias-null-assigned"] > 0 {
 		res.TieSkip = "rowid-alias-null"
+	}
+	if res.TieSkip == "" && m.Tx == "rawtx" && m.FK && typeChanged(before, after) {
+		// foreign-key matching on masked (converted) values is meaningless
+		res.TieSkip = "rawtx-type-change"
 	}
 	if res.TieSkip == "" {
 		res.TieObs = tieObs(before, after, res.ErrClass)
@@ -349,7 +363,7 @@ func report(w *out.W, cr caseResult, dbg, viol *os.File) {
 }
 
 func runAPI(ctx context.Context, w *out.W, tier, tmp, outDir, only string) {
-	n := 700
+	n := 500
 	if tier == "thorough" {
 		n = 12000
 	}
